@@ -570,6 +570,10 @@ func (m *Machine) violate(kind, label string, extra *Term) {
 		m.violations = append(m.violations, Violation{Kind: kind, Label: label, Site: m.site(), Phase: m.phase, Decisions: append([]int(nil), m.trace...), Extra: map[string]string{"dup": "1"}})
 		return
 	}
+	if m.inBase {
+		m.violations = append(m.violations, Violation{Kind: kind, Label: label, Site: m.site(), Phase: "setup", Nondets: []NondetVal{}})
+		return
+	}
 	nd, ok := m.model(extra)
 	if !ok {
 		m.notes = append(m.notes, "violation without model: "+label)
@@ -821,7 +825,17 @@ func (m *Machine) deref(p *Term, n int, write bool, what string) (*Block, int) {
 	}
 	if write {
 		if b.frozen && m.frozenOn {
-			m.violate("monitor", fmt.Sprintf("M-frozen: store to frozen %s at offset %d", b.name, addr-b.base), nil)
+			if b.owner == "setup" || b.owner == "init" {
+				m.violate("monitor", fmt.Sprintf("C08 steady-state call writes shared descriptor/cache memory without synchronisation (%s, offset %d)", b.name, addr-b.base), nil)
+			} else {
+				m.violate("monitor", fmt.Sprintf("M-frozen: store to frozen %s at offset %d", b.name, addr-b.base), nil)
+			}
+		}
+		if b.published {
+			m.violate("monitor", fmt.Sprintf("C08 store to memory already published through an atomic pointer (%s, offset %d): readers may observe it", b.name, addr-b.base), nil)
+		}
+		if b.guard != 0 && !m.mutexes[b.guard] {
+			m.violate("monitor", fmt.Sprintf("C08 write to lock-protected shared state (%s) without holding its mutex", b.name), nil)
 		}
 		if b.readonly {
 			m.violate("fault", fmt.Sprintf("store to read-only %s", b.name), nil)
